@@ -40,6 +40,11 @@ impl FullnameInfo {
     // look for the prefix. prefer the empty prefix, and if that isn't there, the
     // most recently defined prefix
     fn element_prefix_by_namespace(&self, xot: &Xot, namespace: NamespaceId) -> Option<PrefixId> {
+        // the xml prefix is always bound to the XML namespace; declarations
+        // of that namespace are never written, so no other prefix will do
+        if namespace == xot.xml_namespace() {
+            return Some(xot.xml_prefix());
+        }
         if self
             .prefixes_by_namespace(namespace)
             .any(|p| p == xot.empty_prefix())
@@ -53,6 +58,9 @@ impl FullnameInfo {
     // look for the prefix, but only if it's not the empty prefix, as this is
     // for attributes which cannot be unprefixed and still in a namespace
     fn attribute_prefix_by_namespace(&self, xot: &Xot, namespace: NamespaceId) -> Option<PrefixId> {
+        if namespace == xot.xml_namespace() {
+            return Some(xot.xml_prefix());
+        }
         self.prefixes_by_namespace(namespace)
             .find(|&prefix| prefix != xot.empty_prefix())
     }
